@@ -43,6 +43,14 @@ type c6All struct {
 	FnB  scen.I2    `func:"Comp,returns=B,required=false"`
 }
 
+// c6inner has the fields of c6All under an unexported type name; c6AllEmb embeds it by value
+// (the points then live in an anonymous, untagged, unexported-typed embedded struct).
+type c6inner c6All
+
+type c6AllEmb struct {
+	c6inner
+}
+
 // one required point per consumer type
 type c6rPA struct {
 	F *scen.TA `wire:""`
@@ -176,6 +184,7 @@ type c06Case struct {
 	ProcOrder int         `json:"processor_order,omitempty"` // family "peers": a user post-processor depending on peer p0, Ordered with this Order (-1: unordered)
 	Neutral   int         `json:"neutral_mask,omitempty"`    // family "peers": holders of the same points that provide nothing (bit 0: named to sort first, bit 1: last)
 	Peers     []string    `json:"peer_names,omitempty"`      // family "peers": names of the c6Peer holders ("" = default name)
+	Embedded  bool        `json:"points_in_unexported_embedded_struct,omitempty"`
 	Preset    bool        `json:"fields_preset,omitempty"`   // the all-optional consumer is registered with every field already holding unregistered objects
 	Zero      int         `json:"zero_size_mask,omitempty"`  // family "zero-size": which of Z1,Z2,Z3 are registered
 	Sealed    int         `json:"sealed_mask,omitempty"`     // family "sealed": which of TS1,TS2 (implementers of a sealed interface) are registered
@@ -218,6 +227,14 @@ func c06Gen(c *core.Ctx) func(yield func(c06Case) bool) {
 				}
 			}
 			return true
+		})
+		if !ok {
+			return
+		}
+		// the points live in an unexported-typed struct embedded by value
+		c06Pops(small, func(pop []scen.Inst) bool {
+			ok = yield(c06Case{Pop: pop, Embedded: true})
+			return ok
 		})
 		if !ok {
 			return
@@ -411,6 +428,7 @@ func c06Run(c *core.Ctx) {
 				comps = append(comps, sh)
 			}
 			var call *c6All
+			var holderObj any
 			var get func() any
 			if len(cs.Peers) > 0 || cs.Zero != 0 || cs.Sealed != 0 {
 			} else if cs.Kind == "" {
@@ -420,8 +438,17 @@ func c06Run(c *core.Ctx) {
 					*call = c6All{PA: dA, F1: dB, F2: dB, F12: dB, SPA: []*scen.TA{dA}, S1: []scen.I1{dB}, S2: []scen.I2{dB}, SA: []any{dB}, A: dB,
 						FnP: dA, Fn1: []scen.I1{dB}, FnA: []scen.I2{dB}, FnAB: []scen.I2{dB}, FnS: []scen.I1{dB}, FnB: dB}
 				}
-				comps = append(comps, call)
-				user["verif/props/c6All"] = true
+				if cs.Embedded {
+					emb := &c6AllEmb{}
+					call = (*c6All)(&emb.c6inner)
+					holderObj = emb
+					comps = append(comps, emb)
+					user["verif/props/c6AllEmb"] = true
+				} else {
+					holderObj = call
+					comps = append(comps, call)
+					user["verif/props/c6All"] = true
+				}
 			} else {
 				var h any
 				h, get = c06Required(cs.Kind)
@@ -446,7 +473,7 @@ func c06Run(c *core.Ctx) {
 			cc := cs
 			cc.Choices = ch.Choices()
 			key := func(kind string) string {
-				return "C06/" + kind + "/" + core.Hash(cs.Pop, cs.Kind, cs.Desc, cs.Peers, cs.Zero, cs.Sealed, cs.Neutral, cs.ProcOrder, cs.Preset, cc.Choices)
+				return "C06/" + kind + "/" + core.Hash(cs.Pop, cs.Kind, cs.Desc, cs.Peers, cs.Zero, cs.Sealed, cs.Neutral, cs.ProcOrder, cs.Preset, cs.Embedded, cc.Choices)
 			}
 			adm := func(kind string) []string {
 				pred := c6Pred(kind)
@@ -653,7 +680,7 @@ func c06Run(c *core.Ctx) {
 			// any / []any: every registered component except the holder, each exactly once
 			want := map[any]int{}
 			for _, x := range allComps {
-				if x != any(h) {
+				if x != holderObj {
 					want[x]++
 				}
 			}
@@ -679,7 +706,7 @@ func c06Run(c *core.Ctx) {
 			}
 			if h.A == nil {
 				c.Report(key("any-empty"), "wrong-or-missing", fmt.Sprintf("single `any` point is empty although %d registered components besides the holder are admissible", len(want)), cc)
-			} else if h.A == any(h) || want[h.A] == 0 {
+			} else if h.A == holderObj || want[h.A] == 0 {
 				c.Report(key("any-wrong"), "unsound", fmt.Sprintf("single `any` point holds %T which is the holder or not registered", h.A), cc)
 			}
 		}
